@@ -7,9 +7,9 @@
 (* "lp" and, for every other shape, a second loop category "ot".  The      *)
 (* target category (kv or lp) has n <= MaxItems items a,b,c and up to      *)
 (* MaxRows rows; the column the operation reads ranges over EVERY sequence *)
-(* of palette values (plain, numeric, quoted with a space, multi-word with *)
-(* both quote characters, "?" and "."), all other cells get a fixed        *)
-(* filler pattern.  Operations: copy from/to over a,b,c,d (d never exists; *)
+(* of the first PalN palette values (plain, quoted with a space, multi-word*)
+(* with both quote characters, "?", ".", numeric), all other cells get a   *)
+(* fixed filler pattern over the whole palette.  Operations: copy from/to over a,b,c,d (d never exists; *)
 (* items beyond n are absent sources / new targets), replace over a,b,c,d  *)
 (* with three alphabets (one of them permutes existing values), and every  *)
 (* operation on an absent category.                                        *)
@@ -55,15 +55,25 @@ Present ==
 Absent == { [op |-> o, in |-> DocOf("none", 2, <<"A">>, o)] : o \in OpsFor("zz") }
 AllCases == Present \cup Absent
 
+\* the same domain as a sequence, built without normalising one big set (fast to write out)
+ShapeSeq == SetToSeq(UNION { UNION { { <<tgt, n, S>> : S \in UNION { [1..r -> P] : r \in RowChoices(tgt) } }
+                                     : n \in 1..MaxItems } : tgt \in {"kv", "lp"} })
+OpsSeq(cat) == SetToSeq(OpsFor(cat))
+CaseSeq ==
+  FlattenSeq([i \in 1..Len(ShapeSeq) |->
+                LET sh == ShapeSeq[i]  os == OpsSeq(sh[1]) IN
+                [j \in 1..Len(os) |-> [op |-> os[j], in |-> DocOf(sh[1], sh[2], sh[3], os[j])]]])
+  \o SetToSeq(Absent)
+
 Mode == IF "MODE" \in DOMAIN IOEnv THEN IOEnv.MODE ELSE "gen"
 
 \* MODE=gen: write the domain.  MODE=domain: check that the recorded inputs (TRACE_FILE:
-\* {"items":[{"op":..,"in":..},..]}) are exactly this domain, each case once.
+\* {"items":[{"op":..,"in":..},..]}) are exactly this domain (the SET AllCases), each case once.
 Items == JsonDeserialize(IOEnv.TRACE_FILE).items
 DomainOK == /\ { Items[i] : i \in DOMAIN Items } = AllCases
             /\ Len(Items) = Cardinality(AllCases)
 ASSUME IF Mode = "gen"
-       THEN /\ ndJsonSerialize(IOEnv.OUT_FILE, SetToSeq(AllCases))
-            /\ PrintT(<<"GENERATED", Cardinality(AllCases)>>)
+       THEN /\ ndJsonSerialize(IOEnv.OUT_FILE, CaseSeq)
+            /\ PrintT(<<"GENERATED", Len(CaseSeq)>>)
        ELSE PrintT(<<"DOMAIN", DomainOK, Len(Items)>>)
 =============================================================================
